@@ -350,3 +350,42 @@ package oauth2
 //@   ensures [C08.not-found-changes-nothing] !foundref && !foundacc ==> acc_exists == old(acc_exists) && ref_active == old(ref_active)
 //@   ensures [C08.revoke-issues-nothing] (forall s string :: acc_exists[s] ==> old(acc_exists[s])) && (forall s string :: ref_active[s] ==> old(ref_active[s]))
 //@   ensures [C08.error-class] err != nil ==> ekind(err) == "unauthorized_client" || ekind(err) == "temporarily_unavailable"
+
+// ---------------------------------------------------------------- C09: introspection (storage-backed validator)
+
+//@ func matchScopes
+//@   ensures [C09.scopes-covered] err == nil <==> (forall j int :: 0 <= j && j < len(scopes) ==> scopes[j] == "" || call(ss, granted, scopes[j]))
+//@   ensures [C09.scopes-covered] err != nil ==> ekind(err) == "invalid_scope"
+//@   invariant loop#1 [C09.scopes-covered] $i <= len(scopes) && (forall j int :: 0 <= j && j < $i ==> scopes[j] == "" || call(ss, granted, scopes[j]))
+
+//@ func (*CoreValidator).introspectAccessToken
+//@   let sig = c.CoreStrategy.AccessTokenSignature(ctx, token)
+//@   requires c != nil && accessRequest != nil && !stored[accessRequest]
+//@   modifies faults, validated_n, accessRequest.GetID(), accessRequest.GetRequestedAt(), accessRequest.GetClient(), accessRequest.GetSession(), accessRequest.GetRequestedScopes(), accessRequest.GetGrantedScopes(), accessRequest.GetRequestedAudience(), accessRequest.GetGrantedAudience(), accessRequest.GetRequestForm()
+//@   ensures [C09.active-iff] err == nil ==> acc_exists[sig] && validated_n[token] > old(validated_n[token]) && (forall j int :: 0 <= j && j < len(scopes) ==> scopes[j] == "" || call(c.Config.GetScopeStrategy(ctx), acc_req[sig].GetGrantedScopes(), scopes[j]))
+//@   ensures [C09.active-iff] !acc_exists[sig] ==> err != nil
+//@   ensures [C09.validated-monotone] forall t string :: validated_n[t] >= old(validated_n[t])
+//@   ensures [C09.reports-stored] err == nil ==> accessRequest.GetID() == acc_rid[sig] && accessRequest.GetClient() == acc_req[sig].GetClient() && accessRequest.GetClient().GetID() == acc_client[sig] && accessRequest.GetSession() == acc_req[sig].GetSession() && accessRequest.GetRequestedAt() == acc_req[sig].GetRequestedAt() && (forall x string :: insl(accessRequest.GetGrantedScopes(), x) <==> (insl(old(accessRequest.GetGrantedScopes()), x) || insl(acc_req[sig].GetGrantedScopes(), x))) && (forall x string :: insl(accessRequest.GetGrantedAudience(), x) <==> (insl(old(accessRequest.GetGrantedAudience()), x) || insl(acc_req[sig].GetGrantedAudience(), x)))
+//@   ensures [C09.refusal-leaves-request] err != nil ==> accessRequest.GetClient() == old(accessRequest.GetClient()) && accessRequest.GetSession() == old(accessRequest.GetSession()) && accessRequest.GetGrantedScopes() == old(accessRequest.GetGrantedScopes())
+
+//@ func (*CoreValidator).introspectRefreshToken
+//@   let sig = c.CoreStrategy.RefreshTokenSignature(ctx, token)
+//@   requires c != nil && accessRequest != nil && !stored[accessRequest]
+//@   modifies faults, validated_n, accessRequest.GetID(), accessRequest.GetRequestedAt(), accessRequest.GetClient(), accessRequest.GetSession(), accessRequest.GetRequestedScopes(), accessRequest.GetGrantedScopes(), accessRequest.GetRequestedAudience(), accessRequest.GetGrantedAudience(), accessRequest.GetRequestForm()
+//@   ensures [C09.active-iff] err == nil ==> ref_exists[sig] && ref_active[sig] && validated_n[token] > old(validated_n[token]) && (forall j int :: 0 <= j && j < len(scopes) ==> scopes[j] == "" || call(c.Config.GetScopeStrategy(ctx), ref_req[sig].GetGrantedScopes(), scopes[j]))
+//@   ensures [C09.active-iff] !(ref_exists[sig] && ref_active[sig]) ==> err != nil
+//@   ensures [C09.validated-monotone] forall t string :: validated_n[t] >= old(validated_n[t])
+//@   ensures [C09.reports-stored] err == nil ==> accessRequest.GetID() == ref_rid[sig] && accessRequest.GetClient() == ref_req[sig].GetClient() && accessRequest.GetClient().GetID() == ref_client[sig] && accessRequest.GetSession() == ref_req[sig].GetSession() && (forall x string :: insl(accessRequest.GetGrantedScopes(), x) <==> (insl(old(accessRequest.GetGrantedScopes()), x) || insl(ref_req[sig].GetGrantedScopes(), x)))
+//@   ensures [C09.refusal-leaves-request] err != nil ==> accessRequest.GetClient() == old(accessRequest.GetClient()) && accessRequest.GetSession() == old(accessRequest.GetSession()) && accessRequest.GetGrantedScopes() == old(accessRequest.GetGrantedScopes())
+
+//@ func (*CoreValidator).IntrospectToken
+//@   let asig = c.CoreStrategy.AccessTokenSignature(ctx, token)
+//@   let rsig = c.CoreStrategy.RefreshTokenSignature(ctx, token)
+//@   requires c != nil && accessRequest != nil && !stored[accessRequest]
+//@   modifies faults, validated_n, accessRequest.GetID(), accessRequest.GetRequestedAt(), accessRequest.GetClient(), accessRequest.GetSession(), accessRequest.GetRequestedScopes(), accessRequest.GetGrantedScopes(), accessRequest.GetRequestedAudience(), accessRequest.GetGrantedAudience(), accessRequest.GetRequestForm()
+//@   ensures [C09.kind-truthful] result1 == nil ==> (result0 == fosite.AccessToken || result0 == fosite.RefreshToken)
+//@   ensures [C09.kind-truthful] result1 == nil && result0 == fosite.AccessToken ==> acc_exists[asig] && accessRequest.GetClient().GetID() == acc_client[asig] && accessRequest.GetID() == acc_rid[asig]
+//@   ensures [C09.kind-truthful] result1 == nil && result0 == fosite.RefreshToken ==> ref_exists[rsig] && ref_active[rsig] && accessRequest.GetClient().GetID() == ref_client[rsig] && accessRequest.GetID() == ref_rid[rsig] && !c.Config.GetDisableRefreshTokenValidation(ctx)
+//@   ensures [C09.active-iff] !acc_exists[asig] && !(ref_exists[rsig] && ref_active[rsig]) ==> result1 != nil
+//@   ensures [C09.validated] result1 == nil ==> validated_n[token] > old(validated_n[token])
+//@   ensures [C09.inactive-result] result1 != nil ==> result0 == ""
